@@ -218,6 +218,7 @@ func parseTypeSpec(b *Block) (*TypeSpec, error) {
 // ---------------------------------------------------------------------------
 
 type kernelCtx struct {
+	outerFallback bool // binds may resolve to cells of the enclosing function (last resort, see runFunc)
 	w      *World
 	blocks []*Block
 	types  map[string]*TypeSpec
@@ -305,7 +306,19 @@ func (kc *kernelCtx) runFunc(b *Block) *Unit {
 			extra = append(extra, lb)
 		}
 	}
-	return kc.tryRebind(u, b, b.Name, typeName, availFor(fn), extra, func(k2 *kernelCtx, nb *Block) *Unit { return k2.runFunc0(nb) })
+	u3 := kc.tryRebind(u, b, b.Name, typeName, availFor(fn), extra, func(k2 *kernelCtx, nb *Block) *Unit { return k2.runFunc0(nb) })
+	if !hasBindingErr(u3) {
+		return u3
+	}
+	// neither a moved closure nor a renaming: a name the closure no longer captures but that is still a cell of the
+	// enclosing function denotes that cell (the closure leaves it alone; see runFunc0)
+	kc.outerFallback = true
+	u4 := kc.runFunc0(b)
+	kc.outerFallback = false
+	if !hasBindingErr(u4) {
+		return u4
+	}
+	return u3
 }
 
 func (kc *kernelCtx) runFunc0(b *Block) *Unit {
@@ -361,7 +374,11 @@ func (kc *kernelCtx) runFunc0(b *Block) *Unit {
 		// a cell of an enclosing function that this closure no longer reads (`done := ... completedB && len(valueC) == 0`
 		// where the contract says completedC): the name still denotes that cell; the closure simply leaves it alone, and
 		// its value is whatever it is - which is the point when the contract says the outcome depends on it
-		if top := outermost(fn); top != fn {
+		sameCalls := false
+		if cc := b.first("calls"); cc != nil {
+			sameCalls = strings.Join(strings.Fields(cc.Text), " ") == strings.Join(callFingerprint(fn), " ")
+		}
+		if top := outermost(fn); top != fn && kc.outerFallback && sameCalls {
 			for n, t := range cellTypes(top) {
 				if !have[n] {
 					have[n] = true
@@ -1267,4 +1284,44 @@ func outermost(fn *ssa.Function) *ssa.Function {
 		fn = fn.Parent()
 	}
 	return fn
+}
+
+
+// callFingerprint: the names of what a function calls (methods invoked, functions and closures called), sorted and
+// without duplicates. Recorded next to `binds` for closures (tools/mkbinds.py): when a name of `binds` is no longer
+// captured, the contract is only tried on the closure of that ordinal if it still calls the same things - an inserted
+// function literal that shifted the ordinals calls something else.
+func callFingerprint(fn *ssa.Function) []string {
+	seen := map[string]bool{}
+	for _, b := range fn.Blocks {
+		for _, ins := range b.Instrs {
+			ci, ok := ins.(ssa.CallInstruction)
+			if !ok {
+				continue
+			}
+			c := ci.Common()
+			n := ""
+			switch {
+			case c.IsInvoke():
+				n = c.Method.Name()
+			case c.StaticCallee() != nil:
+				n = c.StaticCallee().Name()
+			default:
+				if _, isB := c.Value.(*ssa.Builtin); isB {
+					continue
+				}
+				n = "fn:" + cellName(stripLoad(c.Value))
+			}
+			if i := strings.Index(n, "["); i > 0 {
+				n = n[:i]
+			}
+			seen[n] = true
+		}
+	}
+	var out []string
+	for n := range seen {
+		out = append(out, n)
+	}
+	sort.Strings(out)
+	return out
 }
